@@ -79,7 +79,7 @@ Inductive metric := MA | MB.
 Inductive obs :=
 | ONet (pv bv : Z)                                  (* exported network: architecture and weights are functions of pv, bv *)
 | OSum (pv : Z)                                     (* summary computed from the parameters *)
-| OSumTheta (t : theta)                             (* summary that reports a freshly stored sample (upstream SuperNet) *)
+| OSumTheta (t : theta)                             (* SuperNet summary: reports normalized coefficients (upstream: a freshly stored sample) *)
 | OCostV (m : metric) (fc : bool) (t : theta) (pv : Z)
 | OOut (pv bv : Z) (t : theta) (train sub : bool) (r : Z)
 | OOk
@@ -140,7 +140,7 @@ Definition export (v : version) (c : config) (s : state) : state * obs :=
 
 Definition summary (v : version) (c : config) (s : state) : state * obs :=
   match meth c with
-  | SN => if summary_pure v then (s, OSum (pv s))
+  | SN => if summary_pure v then (s, OSumTheta (TSoft (pv s) (o_hard (opt s)) (o_temp (opt s))))   (* noise-free softmax / one-hot, not stored *)
           else let t := fst (resample c (samp_flag c s) s) in
                let r1 := snd (resample c (samp_flag c s) s) in (set_th_rng s t r1, OSumTheta t)
   | _ => (s, OSum (pv s))
